@@ -619,6 +619,15 @@ Theorem C11_generated_code_is_model :
 Proof. exact generated_code_is_model. Qed.
 Print Assumptions C11_generated_code_is_model.
 
+(* 20'. The two list functions read elements only inside their loops in the present source; if the
+       source reads one by index outside a loop (a counting loop followed by cl[n-1]), the translator
+       emits the function with that read allowed to fail, and this theorem says it never does. *)
+Theorem C11_generated_reads_in_range :
+  (forall cis cl end_, gen_version_before_chk cis cl end_ = Ok (version_before cis cl end_)) /\
+  (forall cis cl cid at_ eps, gen_find_visible_chk cis cl cid at_ eps = Ok (find_visible cis cl cid at_ eps)).
+Proof. exact generated_reads_in_range. Qed.
+Print Assumptions C11_generated_reads_in_range.
+
 (* ---- non-vacuity: the witness history of C12/Proofs.v (node 100: v1 before the way, v2 and v3
    in the same second after it; commit-time regime) ---- *)
 Example C11_hyps_commit_regime :
